@@ -103,6 +103,10 @@ func (Engine) Execute(planJSON json.RawMessage, scratch string) (res sim.RunResu
 			res.Infra = err.Error()
 			return
 		}
+		if c == p.ConvNoExec {
+			os.WriteFile(filepath.Join(d.Converter, c), []byte("#!/nonexistent/interpreter\n"), 0o755)
+			res.Count("fault_converter_cannot_be_started", 1)
+		}
 	}
 	s.or = newOracles(s)
 	if p.Loopback && len(s.capt.Names) > 0 {
